@@ -183,7 +183,15 @@ def run(repo, chk):
     # R13.2
     t = norm(rs.node)
     sel_defs = [n for n in walk_local(rs.node) if isinstance(n, ast.Assign) and any(is_name(x, "selfname") for x in n.targets)]
-    ok = len(sel_defs) == 1 and norm(sel_defs[0].value) == "inspect.getfullargspec(real_fn).args[0]"
+    ok = False
+    if len(sel_defs) == 1:
+        v = sel_defs[0].value
+        txt = norm(v)
+        if isinstance(v, ast.Subscript) and isinstance(v.value, ast.Name):      # argnames[0] with argnames = getfullargspec(real_fn).args
+            src = [n.value for n in walk_local(rs.node) if isinstance(n, ast.Assign) and any(is_name(x, v.value.id) for x in n.targets)]
+            if len(src) == 1:
+                txt = txt.replace(v.value.id, norm(src[0]), 1)
+        ok = txt == "inspect.getfullargspec(real_fn).args[0]"
     chk.ob("R13.2", "selector._resolve:receiver-name-from-signature", ok, rs.where,
            "the constrained parameter is the first positional parameter of the resolved function (whatever it is called)")
     for c, cls, field, raw, ident in binds:
@@ -208,5 +216,7 @@ def run(repo, chk):
     chk.ob("R13.3", "selector._dig:property-fget", ok, dg.where, "a property is resolved to its getter")
     dr = repo.func("selector.dict_resolver.resolve")
     t = norm(dr.node)
-    ok = "start, *parts = x.split('.')" in t and "for part in parts: curr = getattr(curr, part)" in t and "curr = env[start]" in t
+    loops = [n for n in ast.walk(dr.node) if isinstance(n, ast.For) and norm(n.iter) == "parts"]
+    ok = "start, *parts = x.split('.')" in t and "curr = env[start]" in t and len(loops) == 1 and \
+        any(isinstance(a, ast.Assign) and norm(a) == f"curr = getattr(curr, {norm(loops[0].target)})" for a in ast.walk(loops[0]))
     chk.ob("R13.3", "selector.dict_resolver.resolve:dotted-path", ok, dr.where, "dotted names are resolved attribute by attribute from the environment")
